@@ -136,7 +136,7 @@ func withDeadline(d time.Duration, f func()) bool {
 
 func checkC05(c *Ctx) {
 	r := c.Rng
-	c.Ev.Coverage.Rule = "Parse and ParseND on arbitrary bytes in 4 configurations, with and without a reused ParsedJson, each call under recover and a 30 s deadline; on every returned result all exported read methods are called from every AdvanceInto position (capped at 200) under recover and deadline; goroutine count before/after; the model's outcome for the same input must not be Crash/OutOfFuel. Streams: random bytes over a JSON-biased alphabet; every truncation and byte/token mutations of seed documents; nesting depth up to 10^5 (quick; one 10^6 probe in a child process re-confirms K1); maximally dense structurals ([[[[, ,,,,, [{},{}, \"\"\"\") at lengths around every multiple of 64, of 1408, 448/512 and 8192; a full index buffer ending on a carried (non-markup) index followed by a structural-free tail of 63..300 bytes; documents above 8 KiB with a missing/extra bracket. non-trivial = input that reaches stage 2 or returns a result; distinct = by input bytes"
+	c.Ev.Coverage.Rule = "Parse and ParseND on arbitrary bytes in 4 configurations, with and without a reused ParsedJson, each call under recover and a 120 s deadline; on every returned result all exported read methods are called from every AdvanceInto position (capped at 200) under recover and deadline; goroutine count before/after; the model's outcome for the same input must not be Crash/OutOfFuel. Streams: random bytes over a JSON-biased alphabet; every truncation and byte/token mutations of seed documents; nesting depth up to 10^5 (quick; one 10^6 probe in a child process re-confirms K1); maximally dense structurals ([[[[, ,,,,, [{},{}, \"\"\"\") at lengths around every multiple of 64, of 1408, 448/512 and 8192; a full index buffer ending on a carried (non-markup) index followed by a structural-free tail of 63..300 bytes; documents above 8 KiB with a missing/extra bracket. non-trivial = input that reaches stage 2 or returns a result; distinct = by input bytes"
 	g0 := runtime.NumGoroutine()
 	var reuse *simdjson.ParsedJson
 	ncase := 0
@@ -157,10 +157,10 @@ func checkC05(c *Ctx) {
 					if useReuse {
 						ru = reuse
 					}
-					ok := withDeadline(30*time.Second, func() { out = implParse(doc, nd, cp, ru) })
+					ok := withDeadline(120*time.Second, func() { out = implParse(doc, nd, cp, ru) })
 					info := map[string]interface{}{"doc_hex": fmt.Sprintf("%x", trunc(string(doc), 4000)), "doc_len": len(doc), "doc_text": printable(doc), "nd": nd, "kernel": kname(fam), "copy": cp, "reuse": useReuse, "stream": stream}
 					if !ok {
-						c.Violate("hang", "Parse did not return within 30 s", "hang", info)
+						c.Violate("hang", "Parse did not return within 120 s", "hang", info)
 						aborted = true
 						return
 					}
@@ -176,9 +176,9 @@ func checkC05(c *Ctx) {
 						}
 						deep := len(doc) < 50000 || bytes.Count(doc, []byte("[["))+bytes.Count(doc, []byte(`{"`)) < 20000
 						var pan string
-						okr := withDeadline(60*time.Second, func() { pan = exerciseReads(out.PJ, c.N(60, 400), deep) })
+						okr := withDeadline(180*time.Second, func() { pan = exerciseReads(out.PJ, c.N(60, 400), deep) })
 						if !okr {
-							c.Violate("hang", "a read method did not return within 60 s", "hang-read", info)
+							c.Violate("hang", "a read method did not return within 180 s", "hang-read", info)
 							aborted = true
 							return
 						}
@@ -259,6 +259,19 @@ func checkC05(c *Ctx) {
 	for _, d := range denseThenTail(r) {
 		run("dense-then-tail", d, false)
 		run("dense-then-tail-nd", d, true)
+	}
+	{
+		es, en := earlyErrorDocs()
+		for i, d := range es {
+			if i%3 == 0 {
+				run("control-char-early", d, false)
+			}
+		}
+		for i, d := range en {
+			if i%3 == 0 {
+				run("control-char-early-nd", d, true)
+			}
+		}
 	}
 	for _, d := range bigUnbalanced(r, c.N(30, 300)) {
 		run("big-unbalanced", d, false)
